@@ -17,6 +17,8 @@ any time stamps (equal, decreasing) — by induction over the history.
 import Rs1090.Proofs.Snapshot
 import Rs1090.Proofs.SnapshotView
 import Rs1090.Proofs.Pipeline
+import Rs1090.Proofs.SnapshotWriters
+import Rs1090.Proofs.SnapshotKeyed
 import Rs1090.Props.C06
 namespace Rs1090.Props.C12
 open Rs1090.Model.Snapshot Rs1090.Spec.Snapshot Rs1090.Proofs.Snapshot
@@ -107,7 +109,12 @@ theorem provenance (k : Addr) (h : List Record) (e : Entry) (he : entryOf k (run
   have hr' : r ∈ own k h := by simpa using hr
   exact ⟨r, (mem_own.mp hr').1, (mem_own.mp hr').2, hc⟩
 
-/-- `typecode = "GRND"` only from one of `k`'s own DF18 records (instance of `provenance`). -/
+/-- `typecode = "GRND"` only from one of `k`'s own DF18 records (instance of `provenance`).
+    **Premise: empty aircraft database.**  The model's `Entry.new` starts with `typecode = none`, which is
+    `StateVectors::new` when `aircraftdb` has no row for the address (the verification driver runs with an
+    empty `BTreeMap`).  With a database the entry starts with the database's `typecode` (and `registration`),
+    a value carried by NO record: the statement is then false of the real entry, and type-code provenance is
+    "from the database row of `k`, or `GRND` from an own DF18 record". -/
 theorem grnd_only_from_own_df18 (k : Addr) (h : List Record) (e : Entry)
     (he : entryOf k (run h) = some e) (v : Val) (hv : e.typecode = some v) :
     v = "GRND" ∧ ∃ r me, r ∈ h ∧ r.addr = some k ∧ r.body = .tisb me := by
@@ -496,5 +503,286 @@ example : (entryOf "40058b" (runPipeline Gates.source dist0 none [⟨1, fEven⟩
   decide +kernel
 
 end Pipeline
+
+/-! ### Key-path provenance (audit B, finding 3)
+
+`frames_provenance` concludes `v ∈ carried x.record f`, where both the view (`viewOfJson`) and `carried` are
+written to mirror the arms.  The theorems below tie the KEY CHOICE of the view to the message's own JSON: the
+held value is the text of the member of the frame's decoded JSON at one of the key paths `shownAt f` — the
+member names under which `rs1090` serialises that quantity (top level for extended squitters, inside
+`bds20` / `bds40` / `bds50` / `bds60` for Comm-B), a list written from the serde names, not from the view.  A
+view reading another member would falsify them.  Position: see `pipeline_position_provenance` (the decoder's
+JSON has no `latitude` / `longitude`; they come from `decode_position`).  Type code: `frames_typecode_provenance`. -/
+
+section Keyed
+open Rs1090 Rs1090.Model Rs1090.Model.Message Rs1090.Model.SnapshotView Rs1090.Proofs.SnapshotView
+open Rs1090.Proofs.Filters Rs1090.Proofs.SnapshotKeyed Rs1090.Model.Pipeline Rs1090.Proofs.Pipeline
+open Rs1090.Model.Cpr Rs1090.Model.CprState
+
+/-- **Provenance by key path, from frames**: for every quantity `f` except latitude, longitude and the
+    type-code marker, a value `v` the entry of `k` holds for `f` is `valText` of the member at a path of
+    `shownAt f` of the JSON that one of the history's frames showing `k` decodes to. -/
+theorem frames_provenance_keyed (k : Addr) (h : List Rx) (e : Entry) (he : entryOf k (runFrames h) = some e)
+    (f : Field) (v : Val) (hv : entryField e f = some v)
+    (h1 : f ≠ .latitude) (h2 : f ≠ .longitude) (h3 : f ≠ .typecode) :
+    ∃ x, x ∈ h ∧ ShowsIcao24 x.frame k ∧ ∃ kvs, tryFrom x.frame = .ok (.json (.obj kvs)) ∧
+      ∃ p, p ∈ shownAt f ∧ (memberAt kvs p).bind valText = some v := by
+  obtain ⟨x, hx, hs, hc⟩ := frames_provenance k h e he f v hv
+  obtain ⟨kvs, hok, hk⟩ := record_keyed x f v hc h1 h2 h3
+  exact ⟨x, hx, hs, kvs, hok, hk⟩
+
+/-- the 13 instances, spelled out per field: which member(s) of an own frame's JSON the held value is -/
+theorem frames_provenance_paths (k : Addr) (h : List Rx) (e : Entry) (he : entryOf k (runFrames h) = some e) :
+    let At (f : Field) (ps : List Path) := ∀ v, entryField e f = some v →
+      ∃ x, x ∈ h ∧ ShowsIcao24 x.frame k ∧ ∃ kvs, tryFrom x.frame = .ok (.json (.obj kvs)) ∧
+        ∃ p, p ∈ ps ∧ (memberAt kvs p).bind valText = some v
+    At .callsign [.top (key! "callsign"), .nested (key! "bds20") (key! "callsign")] ∧
+    At .squawk [.top (key! "squawk")] ∧
+    At .altitude [.top (key! "altitude")] ∧
+    At .selectedAltitude [.top (key! "selected_altitude"), .nested (key! "bds40") (key! "selected_mcp")] ∧
+    At .groundspeed [.top (key! "groundspeed"), .nested (key! "bds50") (key! "groundspeed")] ∧
+    At .verticalRate [.top (key! "vertical_rate"), .nested (key! "bds60") (key! "vrate_inertial")] ∧
+    At .track [.top (key! "track"), .nested (key! "bds50") (key! "track")] ∧
+    At .ias [.top (key! "IAS"), .nested (key! "bds60") (key! "IAS")] ∧
+    At .tas [.top (key! "TAS"), .nested (key! "bds50") (key! "TAS")] ∧
+    At .mach [.nested (key! "bds60") (key! "Mach")] ∧
+    At .roll [.nested (key! "bds50") (key! "roll")] ∧
+    At .heading [.top (key! "heading"), .nested (key! "bds60") (key! "heading")] ∧
+    At .nacp [.top (key! "NACp")] := by
+  intro At
+  refine ⟨?_, ?_, ?_, ?_, ?_, ?_, ?_, ?_, ?_, ?_, ?_, ?_, ?_⟩ <;> intro v hv <;>
+    exact frames_provenance_keyed k h e he _ v hv (by decide) (by decide) (by decide)
+
+/-- **Type-code provenance, from frames** (empty aircraft database, see `grnd_only_from_own_df18`): a held
+    type code is `GRND`, and one of the history's frames showing `k` decodes to JSON whose `df` member is `"18"`. -/
+theorem frames_typecode_provenance (k : Addr) (h : List Rx) (e : Entry) (he : entryOf k (runFrames h) = some e)
+    (v : Val) (hv : e.typecode = some v) :
+    v = "GRND" ∧ ∃ x, x ∈ h ∧ ShowsIcao24 x.frame k ∧ ∃ kvs, tryFrom x.frame = .ok (.json (.obj kvs)) ∧
+      (objGet kvs (key! "df")).bind strOf = some "18" := by
+  obtain ⟨x, hx, hs, hc⟩ := frames_provenance k h e he .typecode v hv
+  obtain ⟨h1, kvs, hok, hdf⟩ := record_typecode x v hc
+  exact ⟨h1, x, hx, hs, kvs, hok, hdf⟩
+
+/-- **Provenance by key path, whole stage**: the same for the table of `runPipeline` (frames and time stamps
+    alone), the frame being one of `k`'s own receptions. -/
+theorem pipeline_provenance_keyed (g : Gates) (dist : Pos → Pos → Rat) (reference : Option Pos)
+    (k : Addr) (h : List Rcv) (e : Entry) (he : entryOf k (runPipeline g dist reference h) = some e)
+    (f : Field) (v : Val) (hv : entryField e f = some v)
+    (h1 : f ≠ .latitude) (h2 : f ≠ .longitude) (h3 : f ≠ .typecode) :
+    ∃ x, x ∈ h ∧ ShowsIcao24 x.frame k ∧ ∃ kvs, tryFrom x.frame = .ok (.json (.obj kvs)) ∧
+      ∃ p, p ∈ shownAt f ∧ (memberAt kvs p).bind valText = some v := by
+  obtain ⟨y, hy, hs, hc⟩ := pipeline_provenance g dist reference k h e he f v hv
+  obtain ⟨kvs, hok, hk⟩ := record_keyed y f v hc h1 h2 h3
+  obtain ⟨x, hx, hp⟩ := (exists_frame_iff
+    (fun fr => ShowsIcao24 fr k ∧ ∃ kvs, tryFrom fr = .ok (.json (.obj kvs)) ∧
+      ∃ p, p ∈ shownAt f ∧ (memberAt kvs p).bind valText = some v) (ownRcv k h) _).mp
+    ⟨y, hy, hs, kvs, hok, hk⟩
+  exact ⟨x, (mem_ownRcv.mp hx).1, hp⟩
+
+/-- non-vacuity on a real frame (`8d406b902015a678d4d220aa4bda`): the call sign the entry holds is the
+    text of the top-level `callsign` member of that frame's JSON -/
+example : (entryOf "406b90" (runFrames [⟨10, [0x8d,0x40,0x6b,0x90,0x20,0x15,0xa6,0x78,0xd4,0xd2,0x20,0xaa,0x4b,0xda], none⟩])).bind
+      (·.callsign) = some "EZY85MH" ∧
+    (match tryFrom [0x8d,0x40,0x6b,0x90,0x20,0x15,0xa6,0x78,0xd4,0xd2,0x20,0xaa,0x4b,0xda] with
+      | .ok (.json (.obj kvs)) => (memberAt kvs (.top (key! "callsign"))).bind valText
+      | _ => none) = some "EZY85MH" := by
+  decide +kernel
+
+end Keyed
+
+/-! ## All writers of the table: `update_snapshot`, `store_history` and the expiry task
+
+**Scope of the clauses above.**  `run` / `runFrames` / `runPipeline` fold `update_snapshot` alone: the clauses
+"one entry per address seen", `count_eq`, `first_last_seen` (and their `frames_` / `pipeline_` forms) are claims
+about `update_snapshot` histories.  The shared table `state_vectors` has two more writers
+(Model/SnapshotWriters.lean): `store_history` (`entry(k).or_insert(new)`, called by `main`'s loop right after
+`update_snapshot` unless `--history-expire 0`) and, with `--history-expire N`, `N > 0`, the expiry task, which
+every minute removes every entry with `now > lastseen + 60·N`.  Of the REAL table the clauses hold verbatim
+exactly as long as no removal intervenes (`expire_off_reduces`, `entry_between_expiries`); with removals they are
+false as stated (`expiry_breaks_the_original_clauses`: an address seen has no entry, count and first-seen
+restart, `store_history` can re-create an entry with count 0) and what holds instead is their restriction to the
+steps since the aircraft's last removal (`entry_since_last_removal` and corollaries) — for every sequence of
+steps of the three writers (`runLive minutes s`, any interleaving, any clock readings).  Non-interference
+survives (`live_noninterference`) because the removal test reads only the entry's own `lastseen` — as long as
+no evaluation of `lastseen + minutes * 60` overflows `u64`: an overflow panics (`overflow-checks = true`), which
+kills the whole pass, and then one aircraft's time stamp decides whether another's entry is removed
+(`live_interference_on_overflow`). -/
+
+section Writers
+open Rs1090.Model.SnapshotWriters Rs1090.Proofs.SnapshotWriters
+
+/-- **Exactly one entry per address**, whatever the three writers do. -/
+theorem live_one_entry_per_address (minutes : Nat) (s : List Step) : (keys (runLive minutes s)).Nodup :=
+  keys_runLive_nodup minutes s
+
+/-- **(a) The entry of `k` is the fold of `k`'s own steps since `k`'s last removal** (or since the start):
+    `sinceRemoval minutes k s` is the part of `s` after the last expiry pass that removed `k`'s entry
+    (`since_last_removal_spec`), `ownSteps k` keeps the `update_snapshot` / `store_history` steps on records
+    showing `k`, and `stepOwn` is their effect on one entry (`update_snapshot`: create if absent, `lastseen`,
+    `count + 1`, the arm; `store_history`: create if absent with count 0). -/
+theorem entry_since_last_removal (minutes : Nat) (k : Addr) (s : List Step) :
+    entryOf k (runLive minutes s) = (ownSteps k (sinceRemoval minutes k s)).foldl (stepOwn k) none :=
+  entry_since minutes k s
+
+/-- `sinceRemoval` is what its name says: `s = pre ++ sinceRemoval minutes k s` where `pre` is empty or ends
+    with an expiry pass that removed `k`'s entry (there was one before the pass, none after), and no pass
+    inside `sinceRemoval minutes k s` removes it. -/
+theorem since_last_removal_spec (minutes : Nat) (k : Addr) (s : List Step) :
+    ∃ pre, s = pre ++ sinceRemoval minutes k s ∧
+      (pre = [] ∨ ∃ p now, pre = p ++ [Step.expire now] ∧ removesK minutes k (runLive minutes p) now = true) ∧
+      (∀ p1 now p2, sinceRemoval minutes k s = p1 ++ Step.expire now :: p2 →
+        removesK minutes k (runLive minutes (pre ++ p1)) now = false) :=
+  since_spec minutes k s
+
+/-- **Message count** = number of `update_snapshot` calls on records of `k` since its last removal. -/
+theorem since_count (minutes : Nat) (k : Addr) (s : List Step) (e : Entry)
+    (he : entryOf k (runLive minutes s) = some e) :
+    e.count = (own k (recordsOf (sinceRemoval minutes k s))).length := by
+  have := foldOwn_count k (ownSteps k (sinceRemoval minutes k s)) none
+  rw [← entry_since_last_removal, he] at this
+  rw [own_recordsOf, recordsOf_length]
+  simpa [cnt] using this
+
+/-- **First / last seen**: `firstseen` is the time stamp of `k`'s first step (`update_snapshot` or
+    `store_history`) since its last removal; `lastseen` that of its latest `update_snapshot` since then —
+    or `firstseen` when there is none (the entry was re-created by `store_history`). -/
+theorem since_first_last_seen (minutes : Nat) (k : Addr) (s : List Step) (e : Entry)
+    (he : entryOf k (runLive minutes s) = some e) :
+    (ownSteps k (sinceRemoval minutes k s)).head?.map stepTs = some e.firstseen ∧
+    e.lastseen = ((((ownSteps k (sinceRemoval minutes k s)).filter isRecord).getLast?).map stepTs).getD e.firstseen := by
+  rw [entry_since_last_removal] at he
+  refine foldOwn_seen_none k _ ?_ e he
+  intro x hx
+  have := (mem_ownSteps.mp hx).2
+  cases x <;> simp [stepAddr, isExpire] at this ⊢
+
+/-- **Provenance**: a value the entry of `k` holds was carried, for that quantity, by a record of `k` that
+    `update_snapshot` was called on since `k`'s last removal. -/
+theorem since_provenance (minutes : Nat) (k : Addr) (s : List Step) (e : Entry)
+    (he : entryOf k (runLive minutes s) = some e) (f : Field) (v : Val) (hv : entryField e f = some v) :
+    ∃ r, Step.record r ∈ sinceRemoval minutes k s ∧ r.addr = some k ∧ v ∈ carried r f := by
+  rw [entry_since_last_removal] at he
+  obtain ⟨r, hr, hc⟩ := foldOwn_prov k _ none [] (by intro _ _ _ h; cases h) e f v he hv
+  have hr' : Step.record r ∈ ownSteps k (sinceRemoval minutes k s) := mem_recordsOf.mp (by simpa using hr)
+  exact ⟨r, (mem_ownSteps.mp hr').1, (mem_ownSteps.mp hr').2, hc⟩
+
+/-- **Between expiries the existing theorems apply verbatim**: when `k`'s first step since its last removal
+    is an `update_snapshot` (always so in `main`'s loop, where `store_history` follows `update_snapshot`,
+    unless a pass fires between the two), the entry of `k` in the real table is its entry in `run` of the
+    records handled since then — so `count_eq`, `first_last_seen`, `provenance`, `table_noninterference` hold
+    of it as stated, for that segment. -/
+theorem entry_between_expiries (minutes : Nat) (k : Addr) (s : List Step)
+    (h : ∀ x, (ownSteps k (sinceRemoval minutes k s)).head? = some x → isRecord x = true) :
+    entryOf k (runLive minutes s) = entryOf k (run (recordsOf (sinceRemoval minutes k s))) := by
+  rw [entry_since_last_removal, entry_eq_fold, own_recordsOf]
+  cases hl : ownSteps k (sinceRemoval minutes k s) with
+  | nil => rfl
+  | cons x l =>
+    have hx := h x (by rw [hl]; rfl)
+    cases x with
+    | record r => exact foldOwn_record_first k r l
+    | history r => cases hx
+    | expire n => cases hx
+
+/-- without overflow, an expiry pass removes `k`'s entry exactly when there is one and
+    `now > lastseen + 60·minutes` — a test on `k`'s own entry alone -/
+theorem live_removal_iff (minutes : Nat) (k : Addr) (s : List Step) (now : Nat) (hno : NoOverflow minutes s) :
+    removesK minutes k (runLive minutes s) now = true ↔
+      ∃ e, entryOf k (runLive minutes s) = some e ∧ now > e.lastseen + minutes * 60 :=
+  removesK_iff minutes k _ now (keys_runLive_nodup minutes s) (bounded_runLive minutes s hno)
+
+/-- **Reduction, all writers**: when no evaluation of the removal test overflows (`NoOverflow`: every time
+    stamp + `60·minutes` fits `u64`), the entry of `k` is the run of `k`'s private machine `stepEntry` — `k`'s
+    own `update_snapshot` / `store_history` steps, and at every pass the test `now > lastseen + 60·minutes` on
+    its own `lastseen`; steps of other aircraft are skipped. -/
+theorem live_entry_eq_fold (minutes : Nat) (k : Addr) (s : List Step) (hno : NoOverflow minutes s) :
+    entryOf k (runLive minutes s) = s.foldl (stepEntry minutes k) none :=
+  live_fold minutes k s [] (by simp [keys]) (by intro e he; cases he) hno
+
+/-- **(b) Non-interference with all writers.**  The entry of `k` depends only on `k`'s own steps and on the
+    expiry passes (`relevant k s`): deleting every step of every other aircraft changes nothing for `k`. -/
+theorem live_noninterference (minutes : Nat) (k : Addr) (s : List Step) (hno : NoOverflow minutes s) :
+    entryOf k (runLive minutes s) = entryOf k (runLive minutes (relevant k s)) := by
+  rw [live_entry_eq_fold minutes k s hno,
+    live_entry_eq_fold minutes k _ (noOverflow_relevant minutes k s hno)]
+  rw [stepEntry_relevant minutes k s, stepEntry_relevant minutes k (relevant k s)]
+
+/-- … hence two step sequences with the same steps of `k` and the same passes, in the same order, agree on `k`. -/
+theorem live_noninterference' (minutes : Nat) (k : Addr) (s₁ s₂ : List Step) (h₁ : NoOverflow minutes s₁)
+    (h₂ : NoOverflow minutes s₂) (h : relevant k s₁ = relevant k s₂) :
+    entryOf k (runLive minutes s₁) = entryOf k (runLive minutes s₂) := by
+  rw [live_noninterference minutes k s₁ h₁, live_noninterference minutes k s₂ h₂, h]
+
+/-- a record of `aaaaaa` with time stamp `u64::MAX`, one of `bbbbbb` at 0 s -/
+private def wMax : Record := ⟨18446744073709551615, some "aaaaaa", .other⟩
+private def wB : Record := ⟨0, some "bbbbbb", .other⟩
+
+/-- The overflow hypothesis is needed: with `overflow-checks` a `lastseen` of `u64::MAX` (a time stamp of
+    2^64 s or more, `as u64` saturates) makes `lastseen + 60` panic, the pass dies before removing anything,
+    and aircraft `bbbbbb` — long expired — keeps the entry it loses when `aaaaaa` is not there. -/
+theorem live_interference_on_overflow :
+    (entryOf "bbbbbb" (runLive 1 [.record wMax, .record wB, .expire 1000000])).isSome = true ∧
+    relevant "bbbbbb" [.record wMax, .record wB, .expire 1000000] = [.record wB, .expire 1000000] ∧
+    entryOf "bbbbbb" (runLive 1 [.record wB, .expire 1000000]) = none := by
+  decide
+
+/-- **(c) Expiry off (or no pass yet): the real table IS `run`.**  `main`'s loop calls `update_snapshot` and
+    then — when the record passes the output filters and `--history-expire` is not `0` (`keep`) —
+    `store_history` on the same message (`liveOfHistory`); without an expiry pass in between the second call
+    finds the entry the first one made and changes nothing, so the table under both writers equals the table
+    of `update_snapshot` alone, and every theorem about `run` above is a theorem about the real table. -/
+theorem expire_off_reduces (minutes : Nat) (h : List (Record × Bool)) :
+    runLive minutes (liveOfHistory h) = run (h.map (·.1)) :=
+  liveOfHistory_fold minutes h []
+
+private def r1 : Record := ⟨10, some "4ca2d4", .adsb (.bds08 "AFR1234")⟩
+private def r2 : Record := ⟨20, some "4ca2d4", .identity "3000"⟩
+private def r3 : Record := ⟨1001, some "4ca2d4", .altitude "38000"⟩
+
+/-- **(d) With a removal the original clauses fail of the real table** (`minutes = 1`; `4ca2d4` is seen at
+    10 and 20 s, a pass at 1000 s removes it): (1) an address seen has no entry; (2) seen again, its count is 1,
+    not 3, and first-seen 1001, not 10; (3) `store_history` after the pass re-creates an entry with count 0. -/
+theorem expiry_breaks_the_original_clauses :
+    (entryOf "4ca2d4" (runLive 1 [.record r1, .history r1, .record r2, .expire 1000]) = none ∧
+      (entryOf "4ca2d4" (run [r1, r2])).isSome = true) ∧
+    ((entryOf "4ca2d4" (runLive 1 [.record r1, .record r2, .expire 1000, .record r3])).map
+        (fun e => (e.count, e.firstseen, e.lastseen, [e.callsign, e.squawk, e.altitude]))
+        = some (1, 1001, 1001, [none, none, some "38000"]) ∧
+      (entryOf "4ca2d4" (run [r1, r2, r3])).map
+        (fun e => (e.count, e.firstseen, e.lastseen, [e.callsign, e.squawk, e.altitude]))
+        = some (3, 10, 1001, [some "AFR1234", some "3000", some "38000"])) ∧
+    (entryOf "4ca2d4" (runLive 1 [.record r1, .record r2, .expire 1000, .history r2])).map
+        (fun e => (e.count, e.firstseen, e.lastseen)) = some (0, 20, 20) := by
+  refine ⟨⟨?_, ?_⟩, ⟨?_, ?_⟩, ?_⟩ <;> decide
+
+/-- hence "k has an entry iff some record shows k" (`keys_are_addresses`) is false of `runLive` -/
+theorem live_keys_are_addresses_fails :
+    ¬ ∀ (minutes : Nat) (s : List Step) (k : Addr),
+      (entryOf k (runLive minutes s)).isSome ↔ ∃ r, Step.record r ∈ s ∧ r.addr = some k := by
+  intro h
+  have := (h 1 [.record ⟨10, some "4ca2d4", .other⟩, .expire 1000] "4ca2d4").mpr
+    ⟨_, List.mem_cons_self .., rfl⟩
+  revert this; decide
+
+/-! ### non-vacuity: two aircraft, expiry after 1 minute -/
+
+private def sA1 : Step := .record ⟨100, some "4ca2d4", .adsb (.bds08 "AFR1234")⟩
+private def sA1h : Step := .history ⟨100, some "4ca2d4", .adsb (.bds08 "AFR1234")⟩
+private def sB1 : Step := .record ⟨150, some "3c6444", .altitude "38000"⟩
+private def sA2 : Step := .record ⟨170, some "4ca2d4", .identity "3000"⟩
+
+/-- the pass at 215 s removes `3c6444` (last seen 150) and keeps `4ca2d4` (last seen 170); at 231 s it is gone too -/
+example : keys (runLive 1 [sA1, sA1h, sB1, sA2, .expire 215]) = ["4ca2d4"] := by decide
+example : (entryOf "4ca2d4" (runLive 1 [sA1, sA1h, sB1, sA2, .expire 215])).map
+    (fun e => (e.count, e.firstseen, e.lastseen, e.callsign, e.squawk)) = some (2, 100, 170, some "AFR1234", some "3000") := by
+  decide
+example : runLive 1 [sA1, sA1h, sB1, sA2, .expire 215, .expire 231] = [] := by decide
+example : sinceRemoval 1 "4ca2d4" [sA1, sB1, .expire 165, sA2] = [sA2] := by decide
+example : sinceRemoval 1 "3c6444" [sA1, sB1, .expire 165, sA2] = [sA1, sB1, .expire 165, sA2] := by decide
+example : NoOverflow 1 [sA1, sA1h, sB1, sA2, .expire 215] := by
+  intro x hx _; simp only [List.mem_cons, List.not_mem_nil, or_false] at hx
+  rcases hx with rfl | rfl | rfl | rfl | rfl <;> decide
+
+end Writers
 
 end Rs1090.Props.C12
